@@ -325,3 +325,19 @@ def overlap_cases(r):
                 out.append(A + g + bytes(bad))
                 out.append(b"\x00" + A + g + B)
     return out
+
+
+def rejected_then_short(r):
+    """a complete candidate with a declared length >= 2 that fails its checksum, directly (or after dead bytes)
+    followed by a valid frame with a 0-, 1- or 2-byte payload: state left over from the rejected candidate"""
+    out = []
+    for LA in (2, 3, 9, 40):
+        bad = bytearray(mk_frame(payload_for(r, LA, r.choice(SUPPORTED))))
+        bad[-1] ^= 0x01
+        for L in (0, 1, 2):
+            f = mk_frame(payload_for(r, L, r.choice(SUPPORTED)))
+            for gap in (b"", b"\x00\x11"):
+                out.append(bytes(bad) + gap + f)
+                out.append(bytes(bad) + gap + f + rand_bytes(r, 5).replace(b"\xd3", b"\x21"))
+                out.append(b"\x7f" + bytes(bad) + gap + f + f)
+    return out
